@@ -62,9 +62,11 @@ def variable_operation(
     :return: Full minecraft command
     """
     datapack.data.is_too_late_debug_watch = True
+    file_lines = tokenizer.file_string.split("\n")
     datapack.data.last_code_data = (
         relative_file_name(tokenizer.file_path, tokens[0].line),
-        tokenizer.file_string.split("\n")[tokens[0].line - 1],
+        # a token made by a header macro carries the line number of the header file
+        file_lines[tokens[0].line - 1] if tokens[0].line <= len(file_lines) else "",
     )
     is_token_obj_selector = False
     if tokens[0].string.startswith(DataPack.VARIABLE_SIGN):
@@ -210,6 +212,12 @@ Example: `$var = (const) $(my_int)`""",
         if len(func_content) > 1:
             raise JMCSyntaxException(
                 "Operator '=' does not support command that return multiple commands",
+                tokens[2],
+                tokenizer,
+            )
+        if not func_content:
+            raise JMCSyntaxException(
+                f"Expected a command after operator{tokens[1].string} (the statement does not result in any command)",
                 tokens[2],
                 tokenizer,
             )
@@ -408,6 +416,12 @@ Example: `$var = (const) $(my_int)`""",
                 tokens[2],
                 tokenizer,
             )
+        if not func_content:
+            raise JMCSyntaxException(
+                f"Expected a command after operator{tokens[1].string} (the statement does not result in any command)",
+                tokens[2],
+                tokenizer,
+            )
         if func_content[0].startswith("execute"):
             # len("execute ") = 8
             return DebugWatch.variable_operation_wrapper(
@@ -509,6 +523,12 @@ Example: `$var = (const) $(my_int)`""",
                     tokens[2],
                     tokenizer,
                 )
+            if not func:
+                raise JMCSyntaxException(
+                    f"Expected a command after operator{tokens[1].string} (the statement does not result in any command)",
+                    tokens[2],
+                    tokenizer,
+                )
             return DebugWatch.variable_operation_wrapper(
                 f"""execute store result score {tokens[0].string} {objective_name} run {func[0]}""",
                 tokens[0].string,
@@ -591,6 +611,12 @@ Example: `$var = (const) $(my_int)`""",
                 if len(func_content) > 1:
                     raise JMCSyntaxException(
                         "Operator '=' does not support command that return multiple commands",
+                        tokens[2],
+                        tokenizer,
+                    )
+                if not func_content:
+                    raise JMCSyntaxException(
+                        f"Expected a command after operator{tokens[1].string} (the statement does not result in any command)",
                         tokens[2],
                         tokenizer,
                     )
